@@ -43,9 +43,12 @@ pub enum Fault {
     TlsUnknownAlpn,
     TlsUntrustingClient,
     UnixNonUtf8Peer,
+    /// a duplex client that asks for a zero-capacity pipe (it can never send a byte); when it is the first fault of
+    /// a world it is injected before the baseline probe, i.e. it is the first client the listener ever sees
+    DuplexZeroBuffer,
 }
 
-pub const ALL_FAULTS: [Fault; 17] = [
+pub const ALL_FAULTS: [Fault; 18] = [
     Fault::ConnectPolledOnceThenDropped,
     Fault::ConnectThenDrop,
     Fault::Reset,
@@ -63,6 +66,7 @@ pub const ALL_FAULTS: [Fault; 17] = [
     Fault::TlsUnknownAlpn,
     Fault::TlsUntrustingClient,
     Fault::UnixNonUtf8Peer,
+    Fault::DuplexZeroBuffer,
 ];
 
 #[derive(Clone, Debug)]
@@ -95,7 +99,7 @@ impl FaultWorld {
 
 pub fn applicable(f: Fault, w: &FaultWorld) -> bool {
     match f {
-        Fault::ConnectPolledOnceThenDropped => matches!(w.net, Net::Duplex(_)),
+        Fault::ConnectPolledOnceThenDropped | Fault::DuplexZeroBuffer => matches!(w.net, Net::Duplex(_)),
         Fault::Reset => w.net == Net::Tcp,
         Fault::UnixNonUtf8Peer => w.net == Net::Unix,
         Fault::TlsPartialHello | Fault::TlsPlaintext | Fault::TlsStall | Fault::TlsUnknownAlpn | Fault::TlsUntrustingClient => w.tls,
@@ -169,6 +173,13 @@ async fn inject(f: Fault, w: &FaultWorld, target: &Target, stalled: &mut Vec<Raw
         Fault::ConnectThenDrop => {
             let io = raw_connect(target).await.map_err(|e| format!("fault connect: {e}"))?;
             drop(io);
+        }
+        Fault::DuplexZeroBuffer => {
+            if let Target::Duplex(c, _) = target {
+                let mut io = c.connect(0).await.map_err(|e| format!("fault connect: {e}"))?;
+                let _ = tokio::time::timeout(Duration::from_millis(50), io.write_all(b"GET / HTTP/1.1\r\n")).await;
+                drop(io);
+            }
         }
         Fault::Reset => {
             if let Target::Tcp(a) = target {
@@ -361,6 +372,10 @@ pub async fn run_world(w: &FaultWorld, paused: bool) -> (Vec<(String, String)>, 
     let mut stalled: Vec<RawIo> = Vec::new();
     let mut id = 1000u64;
 
+    if w.faults.first() == Some(&Fault::DuplexZeroBuffer) {
+        let _ = tokio::time::timeout(Duration::from_secs(60), inject(Fault::DuplexZeroBuffer, w, &server.target, &mut stalled, paused)).await;
+        settle(paused).await;
+    }
     // baseline probe
     if let Err((s, m)) = do_probe(client.clone(), probe_spec(id, w, None)).await {
         if !paused {
@@ -376,8 +391,13 @@ pub async fn run_world(w: &FaultWorld, paused: bool) -> (Vec<(String, String)>, 
         let gname = format!("inflight{k}");
         let inflight = tokio::spawn(do_probe(client.clone(), probe_spec(id + 1, w, Some(gname.clone()))));
         settle(paused).await;
-        if let Err(e) = inject(*f, w, &server.target, &mut stalled, paused).await {
-            inconclusive.push(format!("fault {f:?} could not be injected: {e}"));
+        match tokio::time::timeout(Duration::from_secs(60), inject(*f, w, &server.target, &mut stalled, paused)).await {
+            Ok(Ok(())) => {}
+            Ok(Err(e)) => inconclusive.push(format!("fault {f:?} could not be injected: {e}")),
+            // paused clock: the virtual minute passes only when nothing can make progress any more, i.e. the faulty
+            // client was never accepted; the probe below decides whether the server still accepts anybody
+            Err(_) if paused => {}
+            Err(_) => inconclusive.push(format!("fault {f:?}: injection did not finish within 60 s")),
         }
         settle(paused).await;
         if server.join.is_finished() {
@@ -440,7 +460,11 @@ pub fn run(args: &Args) -> Report {
         let paused = matches!(w.net, Net::Duplex(_));
         let (problems, inconclusive) = if paused {
             let rt = tokio::runtime::Builder::new_current_thread().enable_all().start_paused(true).build().unwrap();
-            rt.block_on(run_world(w, true))
+            // the virtual day passes only if the world can make no progress at all
+            match rt.block_on(async { tokio::time::timeout(Duration::from_secs(86_400), run_world(w, true)).await }) {
+                Ok(x) => x,
+                Err(_) => (vec![("world-makes-no-progress".to_string(), "the world neither finished nor failed: nothing is runnable and no client-side timeout is pending".to_string())], vec![]),
+            }
         } else {
             let rt = tokio::runtime::Builder::new_multi_thread().worker_threads(2).enable_all().build().unwrap();
             let out = rt.block_on(async { tokio::time::timeout(Duration::from_secs(120), run_world(w, false)).await });
